@@ -137,7 +137,7 @@ func (w *World) analyse(op string, nowNs int64, token string) (a analysis) {
 	fmt.Fprintf(&sb, " hosts=%s provs=%s", c.List(hs), c.List(ps))
 
 	empty := func() {
-		fmt.Fprintf(&sb, " parsed=0 kid=x iss=x sub=x aud=- exp=! nbf=! iat=! azp=x tid=x email=x lbt=0 frag=x fragesc=x hasssh=0 sshtype=0 nebssh=0 pop=! cr=-")
+		fmt.Fprintf(&sb, " parsed=0 kid=x iss=x sub=x aud=- exp=! nbf=! iat=! azp=x tid=x email=x lbt=0 frag=x fragesc=x hasssh=0 sshtype=0 nebssh=0 nebsans=0 pop=! cr=-")
 		a.line = sb.String()
 	}
 	tok, err := jose.ParseSigned(token)
@@ -172,6 +172,7 @@ func (w *World) analyse(op string, nowNs int64, token string) (a analysis) {
 	if hasSSH {
 		nebSSH = nebulaSSHOk(tok, jp.Step.SSH)
 	}
+	nebSans := nebulaSANsOk(tok, jp.SANs)
 	// sshpop header
 	pop := "!"
 	popCert, popJWT, perr := provisioner.ExtractSSHPOPCert(token)
@@ -250,11 +251,11 @@ func (w *World) analyse(op string, nowNs int64, token string) (a analysis) {
 		crs[i] = c.B(sig) + c.B(chain) + c.B(dig) + c.B(admin) + c.B(dom) + c.B(grp) + c.B(ident) + c.B(vpanic)
 		a.crs = append(a.crs, crFacts{sig, chain, dig, admin, dom, grp, ident, vpanic})
 	}
-	fmt.Fprintf(&sb, " parsed=1 kid=%s iss=%s sub=%s aud=%s exp=%s nbf=%s iat=%s azp=%s tid=%s email=%s lbt=%s frag=%s fragesc=%s hasssh=%s sshtype=%s nebssh=%s pop=%s cr=%s",
+	fmt.Fprintf(&sb, " parsed=1 kid=%s iss=%s sub=%s aud=%s exp=%s nbf=%s iat=%s azp=%s tid=%s email=%s lbt=%s frag=%s fragesc=%s hasssh=%s sshtype=%s nebssh=%s nebsans=%s pop=%s cr=%s",
 		c.X(tok.Headers[0].KeyID), c.X(claims.Issuer), c.X(claims.Subject), c.List(auds),
 		optInt(claims.Expiry), optInt(claims.NotBefore), optInt(claims.IssuedAt),
 		c.X(lbt.AuthorizedParty), c.X(lbt.TenantID), c.X(lbt.Email), c.B(lbtOk), c.X(frag), c.X(fragEsc(frag)),
-		c.B(hasSSH), c.B(sshTypeOk), c.B(nebSSH), pop, c.List(crs))
+		c.B(hasSSH), c.B(sshTypeOk), c.B(nebSSH), c.B(nebSans), pop, c.List(crs))
 	a.line = sb.String()
 	const lee = int64(60e9)
 	if claims.Expiry != nil {
@@ -357,4 +358,32 @@ func nebulaSSHOk(tok *jose.JSONWebToken, o *provisioner.SignSSHOptions) (ok bool
 		}
 	}
 	return o.CertType == "" || o.CertType == provisioner.SSHHostCert
+}
+
+// nebulaSANsOk: validateNebulaTokenSANs of Nebula.AuthorizeSign (no sans: the certificate's own names are used)
+func nebulaSANsOk(tok *jose.JSONWebToken, sans []string) (ok bool) {
+	defer func() {
+		if recover() != nil {
+			ok = false
+		}
+	}()
+	nc := nebulaCert(tok)
+	if nc == nil || len(sans) == 0 {
+		return true
+	}
+	for _, san := range sans {
+		valid := san == nc.Details.Name
+		if ip := net.ParseIP(san); !valid && ip != nil {
+			for _, ipnet := range nc.Details.Ips {
+				if ip.Equal(ipnet.IP) {
+					valid = true
+					break
+				}
+			}
+		}
+		if !valid {
+			return false
+		}
+	}
+	return true
 }
